@@ -26,7 +26,8 @@ def DepsDefined (prog : Js) : Prop :=
   ∀ fuel reads, run fuel prog = some reads → ∃ deps, resolve prog = .ok deps
 
 /-- **Soundness on the handled fragment** (direct dot / string-index access, aliasing by plain assignment,
-kills, conditionals, function declarations and expressions with parameter shadowing): every field of `inputs`
+kills, conditionals, counted loops whose body does not change the listener's names, function declarations and
+expressions with parameter shadowing): every field of `inputs`
 read by any terminating evaluation is in the listener's dependency set. -/
 theorem deps_sound_partial (prog : Js) (h : handled prog = true) : DepsSound prog := by
   intro deps hres fuel reads hrun k hk
@@ -142,6 +143,20 @@ theorem deps_sound_computed_false : ¬ DepsSound wComputed ∧ ¬ DepsSound wCon
   · intro h; exact absurd (h [] (by decide) 10 ["ab"] (by decide) "ab" (by simp)) (by simp)
 
 example : resolve wInnerKill = .ok ["q"] ∧ run 10 wInnerKill = some ["q"] := by decide
+
+/-- `var y; for (var i = 0; i < 2; i++) { if (y) { y.k; } else {} y = inputs; } return 0;` — a loop-carried alias: the
+listener walks the body once (before `y = inputs`), the second iteration reads `k` through `y` -/
+def wLoopAlias : Js := seq (varDecl "y") (seq (loop "i" 0 2 (seq (ite (ident "y") (seq (dot (ident "y") "k") skip) skip)
+  (seq (assign "y" (ident "inputs")) skip))) (seq (ret (num 0)) skip))
+
+theorem deps_sound_loop_false : ¬ DepsSound wLoopAlias ∧ handled wLoopAlias = false := by
+  refine ⟨?_, by decide⟩
+  intro h; exact absurd (h [] (by decide) 20 ["k"] (by decide) "k" (by simp)) (by simp)
+
+/-- loops whose body leaves the listener's names unchanged are inside the proved fragment -/
+def exLoop : Js := seq (varDecl "x") (seq (assign "x" (ident "inputs"))
+  (seq (loop "i" 0 3 (seq (idx (dot (ident "x") "a") (ident "i")) (seq (dot (ident "inputs") "b") skip))) (seq (ret (num 0)) skip)))
+example : handled exLoop = true ∧ resolve exLoop = .ok ["a", "b"] ∧ run 30 exLoop = some ["a", "b"] := by decide
 
 /-- none of the witnesses is in the handled fragment (the partial theorems do not cover them) -/
 theorem witnesses_not_handled :
